@@ -1,15 +1,18 @@
 //! Complete enumeration of small draw spaces on the implementation (C05, C06, C07 violation search).
 //!
-//! Every draw ranges over a uniform grid of `grid` 64-bit words `w_t = floor((2t+1)·2^64 / (2·grid))`.
-//! For an index range `r` that divides `grid`, `floor(w_t·r / 2^64) = floor(t·r / grid)` and `w_t` is
-//! accepted, so the grid realises every index value exactly `grid / r` times: counting outcomes over
-//! the grid is then exact counting over uniformly distributed draws.
+//! Every draw ranges over a uniform grid of `grid` words whose two 32-bit halves both equal the 32-bit midpoint
+//! `g_t = floor((2t+1)·2^32 / (2·grid))`: `w_t = g_t·(2^32+1)`. For an index range `r` that divides `grid`, a multiply-shift
+//! sampler with rejection gives `floor(t·r / grid)` and accepts `w_t`, whether it works on the 64-bit word, on its high half or
+//! on its low half (the midpoints stay `1/(2·grid/r)` away from every bucket boundary, far more than any rejection zone), so
+//! the grid realises every index value exactly `grid / r` times: counting outcomes over the grid is then exact counting over
+//! uniformly distributed draws - also for an implementation that draws narrower indices from 32-bit words.
 use crate::mockutil::*;
 use crate::util::*;
 use std::collections::BTreeMap;
 
 fn grid_word(t: u64, grid: u64) -> u64 {
-	(((2 * t as u128 + 1) << 64) / (2 * grid as u128)) as u64
+	let g = (((2 * t as u128 + 1) << 32) / (2 * grid as u128)) as u64;
+	g << 32 | g
 }
 
 pub fn enumerate(req: &Req) -> R<String> {
